@@ -8,8 +8,9 @@ Import ListNotations.
 (* The property.  For EVERY device profile (14: Apple TV generations, HomePods, AirPort Express,
    third-party speaker, Mac; OS versions, AirPlay feature-flag variants, kinds of credentials,
    AirPlay->MRP tunnel auto/forced/disabled), EVERY list `order` of SetupData yielded by the
-   real setup() generators under that profile (any subset, any order; of several SetupData for one
-   protocol the first is set up, as connect() does) and EVERY feature name f: if the features
+   real setup() generators under that profile, EACH WITH ANY OUTCOME of its connect() (any subset,
+   any order; of several SetupData for one protocol the first that connected is set up, one whose
+   connect() returned False contributes nothing, as connect() does) and EVERY feature name f: if the features
    interface answers anything else than Unsupported - whatever the dynamic state of the protocol
    that is asked - then every interface member f stands for is overridden by the class some set-up
    SetupData registered, and the relayer routes a call of that member to such a protocol for every
@@ -17,7 +18,7 @@ Import ListNotations.
    Finite core: all profiles x all subsets of the yielded SetupData x all feature names, decided
    by vm_compute (check_all_true). *)
 Theorem C13_features_backed : forall name us order f,
-  In (name, us) profiles -> (forall u, In u order -> In u us) -> In f features ->
+  In (name, us) profiles -> (forall u ok, In (u, ok) order -> In u us) -> In f features ->
   feature_of_units default_rt push_updates order f <> FUnsupported ->
   forall i m, In (i, m) (members_of f) ->
   (exists u, In u (eff order []) /\ impl_u u i m = true) /\
@@ -66,10 +67,11 @@ Theorem C13_order_independent : forall prio feats has_features has_push pu o1 o2
 Proof. exact feature_of_order_independent. Qed.
 Print Assumptions C13_order_independent.
 
-(* Of several SetupData for the same protocol exactly one is set up, so "the unit of a protocol"
-   is well defined for every order. *)
+(* Of several SetupData for the same protocol exactly one is set up - one whose connect() returned
+   True - so "the unit of a protocol" is well defined for every order and every connect outcome;
+   a SetupData that did not connect never answers a feature query nor executes a call. *)
 Theorem C13_one_unit_per_protocol : forall order u, In u (eff order []) ->
-  In u order /\ unit_of (eff order []) (u_proto u) = Some u.
+  In (u, true) order /\ unit_of (eff order []) (u_proto u) = Some u.
 Proof. intros order u I. split; [exact (eff_subset order [] u I)|exact (eff_unit_of order [] u I)]. Qed.
 Print Assumptions C13_one_unit_per_protocol.
 
